@@ -156,11 +156,9 @@ Eval(t, env) ==
     [] t.k = "pool" ->
          \* the finite sum over the cartesian product of the pools; an inner index shadows
          \* an outer one because the environment is overridden on the way down
-         NormSum(BagJoin({ <<1, { <<c, 1>> }>> : c \in {} }) \cup
-                 BagJoin({ <<SumOver([c \in Combos(t) |->
-                                        IF BagOf(Eval(Body(t), Override(env, t, c))) = b THEN 1 ELSE 0],
-                                     Combos(t)), b>>
-                           : b \in { BagOf(Eval(Body(t), Override(env, t, c))) : c \in Combos(t) } }))
+         LET bagAt == [c \in Combos(t) |-> BagOf(Eval(Body(t), Override(env, t, c)))]
+             bags  == Range(bagAt)
+         IN NormSum(BagJoin({ <<Cardinality({ c \in Combos(t) : bagAt[c] = b }), b>> : b \in bags }))
     [] t.k = "sum"  ->
          NormSum(BagImage(t.bg, [e \in { p[1] : p \in t.bg } |-> Eval(e, env)]))
 
@@ -169,13 +167,16 @@ Doit(t)   == Eval(t, EmptyEnv)
 Denote(t) == BagOf(Doit(t))      \* the bag of (unfolded) summand instances
 
 \* ---- the other operations -----------------------------------------------------------
-Rebuild(t)  == t                 \* t.func(*t.args), all-SymPy classes
+Rebuild(t)  == t                 \* rebuilding from the own args, all-SymPy classes
 PickleRT(t) == t                 \* pickle.loads(pickle.dumps(t)), same or fresh process
 EqT(t, u)   == t.k = u.k /\ t.h = u.h /\ t.a = u.a /\ t.at = u.at /\ t.ix = u.ix /\ t.bg = u.bg
 
 \* cleanup of a pool sum: an index with a single value is substituted, an index that does
 \* not occur (free) in the summand and has a single value is dropped; nothing else is
 \* redundant.  No indices left: the summand itself.
+RECURSIVE AsMap(_, _)
+AsMap(sub, S) == IF S = {} THEN <<>>
+                 ELSE LET s == CHOOSE x \in S : TRUE IN <<<<Leaf(s), Val(sub[s])>>>> \o AsMap(sub, S \ {s})
 Cleanup(t) ==
   IF t.k # "pool" THEN t
   ELSE LET single(n) == Len(t.ix[n][2]) = 1
@@ -185,10 +186,7 @@ Cleanup(t) ==
                       LET n == CHOOSE j \in DOMAIN t.ix : t.ix[j][1] = s /\ single(j) IN t.ix[n][2][1]]
            keepIx == SelectSeq([n \in DOMAIN t.ix |-> <<n, t.ix[n]>>], LAMBDA p : ~ drop(p[1]))
            newIx  == [n \in DOMAIN keepIx |-> keepIx[n][2]]
-           RECURSIVE AsMap(_)
-           AsMap(S) == IF S = {} THEN <<>>
-                       ELSE LET s == CHOOSE x \in S : TRUE IN <<<<Leaf(s), Val(sub[s])>>>> \o AsMap(S \ {s})
-           newBody == Subst(Body(t), AsMap(DOMAIN sub))
+           newBody == Subst(Body(t), AsMap(sub, DOMAIN sub))
        IN IF newIx = <<>> THEN newBody ELSE Pool(newBody, newIx)
 
 \* distinct index symbols inside one pool sum (the statement does not say what a repeated
